@@ -20,10 +20,20 @@ fn units(b: &[u8], from: usize, to: usize) -> u32 {
 }
 
 fn body<const N: usize>() {
+    let (n, span, first) = body_with::<N>(false);
+    kani::cover!(n == 2, "token spanning two lines");
+    kani::cover!(n == 1 && span == 2 && first >= 0x80, "token consisting of one two-byte character");
+}
+
+/// `astral_first` restricts the text to start with a four-byte scalar (measured: not cheaper than the full 4-byte bound, unused).
+fn body_with<const N: usize>(astral_first: bool) -> (usize, usize, u8) {
     let mut buf = [0u8; N];
     buf = kani::any();
     let len: usize = kani::any();
     kani::assume(len <= N);
+    if astral_first {
+        kani::assume(len >= 4 && buf[0] >= 0xF0);
+    }
     let text = match std::str::from_utf8(&buf[..len]) {
         Ok(t) => t,
         Err(_) => {
@@ -55,9 +65,9 @@ fn body<const N: usize>() {
         k += 1;
     }
     assert!(k == pieces.len(), "no further pieces");
-    kani::cover!(pieces.len() == 2, "token spanning two lines");
-    kani::cover!(pieces.len() == 1 && e - s == 2 && b[s] >= 0x80, "token consisting of one two-byte character");
+    let n = pieces.len();
     std::mem::forget(pieces);
+    (n, e - s, if s < len { b[s] } else { 0 })
 }
 
 #[kani::proof]
